@@ -7,17 +7,13 @@ kind of failure (format error / panic) on every byte string.
 import JubakoModel.Model.DirLayout
 import JubakoModel.Model.ContentPack
 import JubakoModel.Generated.FuncsParse
+import JubakoModel.Lemmas.OutcomeLemmas
 import JubakoModel.Lemmas.Codec
 import JubakoModel.Lemmas.Slice
 
 set_option linter.unusedSimpArgs false
 
 namespace Jubako
-
-/-- forget the text of a panic (the generated code carries none) -/
-def Outcome.erase {α : Type} : Outcome α → Outcome α
-  | .panic _ => .panic ""
-  | o => o
 
 /-- the source-side value (`RawProperty` with `enum PropertyKind`) of a property of the reader model -/
 def RawProp.toSrcRaw (p : RawProp) : Nat × Generated.SrcPropertyKind × Bytes :=
@@ -52,33 +48,6 @@ theorem byteSize_ok (x : Nat) (h1 : 1 ≤ x) (h8 : x ≤ 8) : Generated.unwrappe
 theorem takeLE_one (b : UInt8) (rest : Bytes) : takeLE (b :: rest) 1 = .ok (b.toNat, rest) := by
   simp [takeLE, leNat]
 
-/-- same outcome up to the text of a panic -/
-def Outcome.Same {α : Type} (a b : Outcome α) : Prop := a.erase = b.erase
-
-theorem Outcome.same_refl {α : Type} (a : Outcome α) : a.Same a := rfl
-
-theorem Outcome.same_panic {α : Type} (s t : String) : (Outcome.panic s : Outcome α).Same (.panic t) := rfl
-
-theorem Outcome.same_bind {α β : Type} (x : Outcome α) (f g : α → Outcome β) (h : ∀ a, (f a).Same (g a)) :
-    (x.bind f).Same (x.bind g) := by
-  cases x with
-  | ok a => exact h a
-  | _ => rfl
-
-theorem Outcome.map'_bind {α β γ : Type} (x : Outcome α) (f : α → Outcome β) (g : β → γ) :
-    (x.bind f).map' g = x.bind (fun a => (f a).map' g) := by
-  cases x <;> rfl
-
-theorem Outcome.bind_assoc' {α β γ : Type} (x : Outcome α) (f : α → Outcome β) (g : β → Outcome γ) :
-    (x.bind f).bind g = x.bind (fun a => (f a).bind g) := by
-  cases x <;> rfl
-
-theorem Outcome.same_bind' {α β : Type} (x : Outcome α) (f g : α → Outcome β) (h : ∀ a, x = .ok a → (f a).Same (g a)) :
-    (x.bind f).Same (x.bind g) := by
-  cases x with
-  | ok a => exact h a rfl
-  | _ => rfl
-
 theorem takeLE_one_lt (bs : Bytes) (a : Nat × Bytes) (h : takeLE bs 1 = .ok a) : a.1 < 256 := by
   unfold takeLE at h
   split at h
@@ -90,18 +59,6 @@ theorem takeLE_one_lt (bs : Bytes) (a : Nat × Bytes) (h : takeLE bs 1 = .ok a) 
       simp [leNat]
       exact b.toNat_lt
   · simp at h
-
-@[simp] theorem Outcome.bind_ok {α β : Type} (a : α) (f : α → Outcome β) : (Outcome.ok a).bind f = f a := rfl
-@[simp] theorem Outcome.bind_err {α β : Type} (k : ErrKind) (f : α → Outcome β) : (Outcome.err k : Outcome α).bind f = .err k := rfl
-@[simp] theorem Outcome.bind_panic {α β : Type} (s : String) (f : α → Outcome β) : (Outcome.panic s : Outcome α).bind f = .panic s := rfl
-@[simp] theorem Outcome.map'_ok {α β : Type} (a : α) (g : α → β) : (Outcome.ok a).map' g = .ok (g a) := rfl
-@[simp] theorem Outcome.map'_err {α β : Type} (k : ErrKind) (g : α → β) : (Outcome.err k : Outcome α).map' g = .err k := rfl
-@[simp] theorem Outcome.map'_panic {α β : Type} (s : String) (g : α → β) : (Outcome.panic s : Outcome α).map' g = .panic s := rfl
-
-@[simp] theorem Outcome.same_self {α : Type} (a : Outcome α) : a.Same a ↔ True := ⟨fun _ => trivial, fun _ => rfl⟩
-
-macro "same_close" : tactic =>
-  `(tactic| repeat (first | exact Outcome.same_refl _ | exact Outcome.same_panic _ _ | (apply Outcome.same_bind; intro _)))
 
 /-- **`RawProperty::parse` translated on every run is `RawProp.decode` of the reader model**, on every byte
     string: the same property (size in the entry, kind with all its fields, name), the same unread rest, and
@@ -310,11 +267,6 @@ theorem gen_contentGet (decompress : Nat → Bytes → Option Bytes) (f : Bytes)
 
 /-! ### `RawLayout::parse` -/
 
-theorem Outcome.same_cases {α : Type} (a b : Outcome α) (h : a.Same b) :
-    (∃ v, a = .ok v ∧ b = .ok v) ∨ (∃ k, a = .err k ∧ b = .err k) ∨ (∃ s t, a = .panic s ∧ b = .panic t) ∨
-      (a = .hang ∧ b = .hang) ∨ (a = .fault ∧ b = .fault) := by
-  cases a <;> cases b <;> simp_all [Outcome.Same, Outcome.erase]
-
 theorem rawLayout_loop (k : Nat) : ∀ (bs : Bytes) (acc : List RawProp),
     ((Generated.rawLayoutParse_loop bs (acc.reverse.map RawProp.toSrcRaw) k).map' (·.1)).Same
       ((rawLayoutDecode.go k bs acc).map' (List.map RawProp.toSrcRaw)) := by
@@ -514,9 +466,6 @@ theorem gen_deportedSignedCreate (stores : Nat → Outcome (ValueStoreTail × By
       | _ => rfl
     | _ => rfl
   split <;> exact key _
-
-theorem Outcome.map'_eq_bind {α β : Type} (x : Outcome α) (f : α → β) : x.map' f = x.bind (fun b => .ok (f b)) := by
-  cases x <;> rfl
 
 theorem takeBytes_drop (e : Bytes) (o n : Nat) (ho : o ≤ e.length) :
     takeBytes (e.drop o) n = if o + n ≤ e.length then .ok (slice e o n, e.drop (o + n)) else .err .format := by
